@@ -23,6 +23,7 @@ def tasks(tier, seed):
         dict(kind="custom", module="props.c04_tasks", fn="setup_clauses"),
         func("bt.backtest.Backtest.run"),
         func("bt.core.StrategyBase.flatten"),
+        func("bt.core.StrategyBase.close"),
         *UPDATE_ALL,
     ]
 
